@@ -1,10 +1,13 @@
 import Eliot.Properties.C12
+import Eliot.Properties.C12Buf
 import Eliot.Proofs.Handover
 import Eliot.Proofs.HandoverFix
 import Eliot.Proofs.HandoverOrder
 #print axioms Sys.C12.trim1000_trim
 #print axioms Sys.C12.bufPhase_basic
 #print axioms Sys.C12.buffered_until_first_add
+#print axioms Sys.C12.buffered_until_first_add_all
+#print axioms Sys.C12.still_buffering
 #print axioms Sys.C12.first_add_delivers_buffer
 #print axioms Sys.C12.later_add_gets_nothing_old
 #print axioms Sys.C12.removed_gets_nothing
